@@ -32,6 +32,10 @@ def pair_model(rng):
         pairs.append(("X%d-Y" % j, k, [rng.choice(LITS) for _ in range(fs["arities"][k] - 1)]))
     cfg = formset_cfg(fs, pairs)
     body = cfg.split("[Potential-Form]", 1)[1]
+    # custom forms that ASSIGN to their own parameters (legal exprtk: an in-place unit conversion), used by several interactions with equal and with different
+    # arguments: every call must start from the arguments it was given, however often and in whatever order the form was evaluated before (seed C12_6)
+    body = body.replace("[Pair]\n", "selfmod(r, a, b) = a := a*2; b := b+1; a*r + b\nconv(r, A, rho) = A := A*27.211386; rho := rho*0.529177; A*exp(-r/rho)\n[Pair]\n", 1)
+    body += "M-N : selfmod 0.5 1.0\nM-O : selfmod 0.5 2.0\nM-P : conv 10.0 0.6\nM-Q : sum(conv 10.0 0.6, selfmod 0.5 1.0)\n"
     return "[Potential-Form]" + body + "Q-Q : as.buck 1000.0 0.3 32.0\nQ-R : sum(as.bornmayer 500.0 0.25, as.constant 1.0) >=2.0 as.zero\n"
 
 
